@@ -1122,3 +1122,22 @@ package tsm1
 //@   reads_unlocked Cache.store test helper, no caller in the package
 //@ func (*Cache).Split
 //@   reads_unlocked Cache.store called by the compactor on the snapshot it is writing, which nobody modifies while it is flushed
+
+// the WAL's current segment and the compactor's switches
+//@ guarded WAL.currentSegmentWriter by mu
+//@ guarded WAL.currentSegmentID by mu
+//@ guarded WAL.lastWriteTime by mu
+//@ guarded Compactor.snapshotsEnabled by mu
+//@ guarded Compactor.compactionsEnabled by mu
+//@ guarded Compactor.files by mu
+//@ guarded Compactor.snapshotsInterrupt by mu
+//@ guarded Compactor.compactionsInterrupt by mu
+//@ func (*WAL).sync
+//@   holds l.mu
+//@ func (*WAL).rollSegment
+//@   holds l.mu
+//@ func (*WAL).newSegmentFile
+//@   holds l.mu
+// the closure Close hands to once.Do runs inside Close's critical section (not a static call: assumed)
+//@ func (*WAL).Close$1
+//@   holds l.mu
